@@ -1,8 +1,8 @@
 (* C03 field values: model | spec for the strict whole-packet slicers.
-   model = Parse/Fields.v fields_of_packet (accessor models of Parse/Access.v on the
-           slices of the model's strict result)
-   spec  = Parse/Fields.v spec_fields on the view produced by the reference decoder
-           (Parse/WireSpec.v) -- does not touch the model
+   model = Parse/Fields.v fields_of_packet ++ Parse/Fields2.v fields2_of_packet (accessor models
+           of Parse/Access.v on the slices of the model's strict result)
+   spec  = Parse/Fields.v spec_fields ++ Parse/Fields2.v spec_fields2 on the view produced by the
+           reference decoder (Parse/WireSpec.v) -- does not touch the model
    Line: `ok <layer>:<field>=<value>;... <layer>:...` | `err` | `BUG <site>`;
    numbers decimal, flags 0/1, octet runs lowercase hex (`-` = empty). *)
 open M_c03f
@@ -52,7 +52,37 @@ let fval = function
   | FvBytes l -> Conv.hex (List.map (fun n -> Z.to_int (z_of_n n)) l)
 let layer (t, fs) =
   ltag t ^ ":" ^ String.concat ";" (List.map (fun (f, v) -> ftag f ^ "=" ^ fval v) fs)
-let layers ls = if ls = [] then "ok -" else "ok " ^ String.concat " " (List.map layer ls)
+(* -- begin audit follow-up: derived / typed accessor values (Parse/Fields2.v); the layers are
+   appended to the same line as `<layer>.d:<field>=<value>;...`; windows `off+len`, optional
+   values `none`, length sources as in harness parsefmt::src_tag -- *)
+let dtag = function
+  | Dfcs -> "fcs" | Dheader -> "header" | Dpayload -> "payload" | Dsender_address -> "sender_address"
+  | Dis_unmodified -> "is_unmodified" | Dptype -> "ptype" | Dptype_ether_type -> "ptype_ether_type"
+  | Dnext_ether_type -> "next_ether_type" | Dheader_len -> "header_len"
+  | Dexpected_payload_len -> "expected_payload_len"
+  | Dsender_hw -> "sender_hw" | Dsender_proto -> "sender_proto" | Dtarget_hw -> "target_hw"
+  | Dtarget_proto -> "target_proto" | Dpayload_len -> "payload_len"
+  | Dis_fragmenting_payload -> "is_fragmenting_payload" | Dpl_ip_number -> "pl_ip_number"
+  | Dpl_fragmented -> "pl_fragmented" | Dpl_len_source -> "pl_len_source" | Dpl_window -> "pl_window"
+  | Ddscp -> "dscp" | Decn -> "ecn" | Dpayload_len_source -> "payload_len_source"
+let src_tag = function
+  | LsSlice -> "slice" | LsMacsecShortLength -> "macsecsl" | LsIpv4HeaderTotalLen -> "ip4tl"
+  | LsIpv6HeaderPayloadLen -> "ip6pl" | LsUdpHeaderLen -> "udplen" | LsTcpHeaderLen -> "tcphl"
+  | LsArpAddrLengths -> "arplen"
+let dval = function
+  | DvN n -> sn n
+  | DvB b -> if b then "1" else "0"
+  | DvWin (o, l) -> sn o ^ "+" ^ sn l
+  | DvOptN None -> "none"
+  | DvOptN (Some n) -> sn n
+  | DvOptBytes None -> "none"
+  | DvOptBytes (Some l) -> Conv.hex (List.map (fun n -> Z.to_int (z_of_n n)) l)
+  | DvSrc s -> src_tag s
+let dlayer (t, fs) =
+  ltag t ^ ".d:" ^ String.concat ";" (List.map (fun (f, v) -> dtag f ^ "=" ^ dval v) fs)
+let layers2 ls ds =
+  if ls = [] && ds = [] then "ok -" else "ok " ^ String.concat " " (List.map layer ls @ List.map dlayer ds)
+(* -- end audit follow-up -- *)
 
 let run (line : string) : string =
   match Conv.split_ws line with
@@ -70,12 +100,12 @@ let run (line : string) : string =
     let ms = match m with
       | Err _ -> "err"
       | Bug b -> "BUG slicer " ^ sn b
-      | Ok p -> (match fields_of_packet p with
-          | Ok ls -> layers ls
-          | Err _ -> "ERR accessor"
-          | Bug b -> "BUG accessor " ^ sn b) in
+      | Ok p -> (match fields_of_packet p, fields2_of_packet p with
+          | Ok ls, Ok ds -> layers2 ls ds
+          | Err _, _ | _, Err _ -> "ERR accessor"
+          | Bug b, _ | _, Bug b -> "BUG accessor " ^ sn b) in
     let ss = match s with
-      | VOk v -> layers (spec_fields bs v)
+      | VOk v -> layers2 (spec_fields bs v) (spec_fields2 bs v)
       | VErr _ -> "err"
       | VBug b -> "BUG spec " ^ sn b in
     ms ^ " | " ^ ss
